@@ -47,11 +47,30 @@ def a_text(a):
         return "%s {%s}" % (a[1], ", ".join(a_text(x) for x in a[2]))
     if k == "v":
         _, kind, p = a
-        return {"int": lambda: str(p), "ref": lambda: p, "bool": lambda: "TRUE" if p else "FALSE", "str": lambda: '"%s"' % p, "null": lambda: "NULL"}[kind]()
+        return {"int": lambda: str(p), "ref": lambda: p, "bool": lambda: "TRUE" if p else "FALSE", "str": lambda: '"%s"' % p, "null": lambda: "NULL", "hstr": lambda: "'%s'H" % p}[kind]()
     if k == "s":
         return "%s { %s }" % (a[1], ", ".join("%s %s" % (i, a_text(x)) for i, x in a[2]))
     if k == "o":
         return "%s %sOF %s" % (a[1], (a[2] + " ") if a[2] else "", a_text(a[3]))
+    raise ValueError(a)
+
+
+def a_keytext(a):
+    """what asn1p_expr_compare can see of an actual parameter: the text without subtype constraints and without nested
+    actual parameter lists (the predicate of finding C10-param-actuals-compared-shallowly is: same key text, other text)"""
+    k = a[0]
+    if k == "t":
+        return a_text(("t", a[1], a[2], None))
+    if k == "r":
+        return a[1]
+    if k == "i":
+        return a[1] + " {..}"
+    if k == "v":
+        return a_text(a)
+    if k == "s":
+        return "%s { %s }" % (a[1], ", ".join("%s %s" % (i, a_keytext(x)) for i, x in a[2]))
+    if k == "o":
+        return "%s OF %s" % (a[1], a_keytext(a[3]))
     raise ValueError(a)
 
 
@@ -87,7 +106,7 @@ def a_model(a, modidx=0):
     if k == "v":
         _, kind, p = a
         val = {"int": lambda: ["I", str(p)], "ref": lambda: ["F", str(modidx), "1", hexs(p)], "bool": lambda: ["T"] if p else ["X"],
-               "str": lambda: ["S", hexs(p)], "null": lambda: ["N"]}[kind]()
+               "str": lambda: ["S", hexs(p)], "null": lambda: ["N"], "hstr": lambda: ["S", hexs("'%s'H" % p)]}[kind]()
         return E("VALUE", "REFERENCE", "?", None, val, None, [], [])
     if k == "s":
         ms = []
@@ -112,7 +131,7 @@ def alist_model(actuals, modidx=0):
 C_INT = [("none", ""), ("value", "(5)"), ("range", "(0..7)"), ("range2", "(0..255)"), ("neg", "(-8..7)"), ("min", "(MIN..0)"), ("max", "(0..MAX)"),
          ("ext", "(0..7, ...)"), ("extadd", "(0..7, ..., 9..12)"), ("union", "(1 | 3 | 5)"), ("uranges", "(0..3 | 8..11)"), ("inter", "(0..7 ^ 3..9)"),
          ("except", "(0..9 EXCEPT 5)"), ("allexcept", "(ALL EXCEPT 3)"), ("serial", "(0..100) (5..9)"), ("valref", "(0..five)"), ("includes", "(INCLUDES Small)"),
-         ("wide", "(0..4294967295)"), ("open", "(0<..<8)")]
+         ("wide", "(0..4294967295)")]
 C_STR = [("none", ""), ("size", "(SIZE(4))"), ("sizerange", "(SIZE(1..8))"), ("sizeext", "(SIZE(1..8, ...))"), ("sizeunion", "(SIZE(1 | 3..5))"),
          ("sizemax", "(SIZE(0..MAX))"), ("from", "(FROM(\"a\"..\"z\"))"), ("fromset", "(FROM(\"ab\"))"), ("fromunion", "(FROM(\"a\"..\"f\" | \"0\"..\"9\"))"),
          ("sizefrom", "(SIZE(1..4) ^ FROM(\"ab\"))"), ("serial", "(SIZE(1..8)) (FROM(\"a\"..\"z\"))"), ("value", "(\"ab\" | \"cd\")")]
@@ -147,7 +166,7 @@ def typed_actuals():
         out.append(("REAL/" + lab, ("t", "REAL", None, c or None)))
     out.append(("BOOLEAN/none", ("t", "BOOLEAN", None, None)))
     out.append(("BOOLEAN/value", ("t", "BOOLEAN", None, "(TRUE)")))
-    out.append(("NULL/none", ("t", "NULL", None, None)))
+    # ("NULL" as an actual parameter parses as the VALUE NULL: finding C10-param-null-actual-assert, module PaNullActual)
     out.append(("OBJECT IDENTIFIER/none", ("t", "OBJECT IDENTIFIER", None, None)))
     out.append(("RELATIVE-OID/none", ("t", "RELATIVE-OID", None, None)))
     out.append(("GeneralizedTime/none", ("t", "GeneralizedTime", None, None)))
@@ -206,12 +225,24 @@ def mk(name, body, origin, tagging="AUTOMATIC", **kw):
     return d
 
 
-def carrier(tmpl, nparams_actuals, name="Use"):
+def alist_text(acts):
+    # "{1, 10}" is lexed as a character-string tuple (refused with a parse error): two numbers are written "1 , 10"
+    return (" , " if all(a[0] == "v" for a in acts) else ", ").join(a_text(a) for a in acts)
+
+
+def site(carrier_name, member, tmpl, acts, modidx=0):
+    """one instantiation site: where its C type is found (member of the carrier's struct), the template, the model's
+    token string of the actual parameter list, its full text and its key text, the index of the referencing module"""
+    return {"carrier": carrier_name, "member": member, "tmpl": tmpl, "model": alist_model(acts, modidx),
+            "text": ", ".join(a_text(a) for a in acts), "key": ", ".join(a_keytext(a) for a in acts), "mod": modidx}
+
+
+def carrier(tmpl, nparams_actuals, name="Use", modidx=0):
     """Use ::= SEQUENCE { s0 P {..}, s1 P {..}, ... } and the specialization sites"""
     ms, sites = [], []
     for i, acts in enumerate(nparams_actuals):
-        ms.append("s%d %s {%s}" % (i, tmpl, ", ".join(a_text(a) for a in acts)))
-        sites.append((name, "s%d" % i, tmpl, alist_model(acts)))
+        ms.append("s%d %s {%s}" % (i, tmpl, alist_text(acts)))
+        sites.append(site(name, "s%d" % i, tmpl, acts, modidx))
     return "  %s ::= SEQUENCE { %s }\n" % (name, ", ".join(ms)), sites
 
 
@@ -265,7 +296,15 @@ def param_directed():
     mods.append(mk("PaValueBool", SUPPORT + "  P {BOOLEAN:d} ::= SEQUENCE { a BOOLEAN DEFAULT d, b INTEGER }\n" + body, "param", sites=sites))
     ls = [[("v", "str", "ab")], [("v", "str", "cd")], [("v", "str", "ab")]]
     body, sites = carrier("P", ls)
-    mods.append(mk("PaValueStr", SUPPORT + "  P {IA5String:d} ::= SEQUENCE { a IA5String DEFAULT d, b INTEGER }\n" + body, "param", sites=sites))
+    mods.append(mk("PaValueStr", SUPPORT + "  P {Str:d} ::= SEQUENCE { a Str DEFAULT d, b INTEGER }\n" + body, "param", sites=sites))
+    lo = [[("v", "hstr", "AB")], [("v", "hstr", "CD")], [("v", "hstr", "AB")]]
+    body, sites = carrier("P", lo)
+    mods.append(mk("PaValueOctets", SUPPORT + "  P {OCTET STRING:d} ::= SEQUENCE { a OCTET STRING DEFAULT d, b INTEGER }\n" + body, "param", sites=sites))
+    # a restricted string type with a mixed-case name as the governor: finding C10-param-governor-mixedcase-assert
+    mods.append(mk("PaGovString", "  P {IA5String:d} ::= SEQUENCE { a IA5String DEFAULT d, b INTEGER }\n  Use ::= SEQUENCE { s0 P {\"ab\"} }\n", "param"))
+    mods.append(mk("PaGovStringUnused", "  P {UTF8String:d} ::= SEQUENCE { a INTEGER }\n  A ::= INTEGER\n", "param"))
+    # the VALUE NULL as an actual parameter: finding C10-param-null-value-respecialized
+    mods.append(mk("PaNullValue", "  P {NULL:d} ::= SEQUENCE { a INTEGER }\n  Use ::= SEQUENCE { s0 P {NULL} }\n", "param"))
     # 6. the governor of a value parameter is itself a parameter; value-set parameters; NULL as an actual parameter
     mods.append(mk("PaGovParam", SUPPORT + "  P {T, T:v} ::= SEQUENCE { a T DEFAULT v, b BOOLEAN }\n  Use ::= SEQUENCE { s0 P {INTEGER, 5}, s1 P {BOOLEAN, TRUE} }\n", "param"))
     mods.append(mk("PaValueSet", SUPPORT + "  P {INTEGER:Allowed} ::= SEQUENCE { a INTEGER (Allowed) }\n  Use ::= SEQUENCE { s0 P {{1 | 2 | 3}}, s1 P {{1..10}}, s2 P {{1 | 2 | 3}} }\n", "param"))
@@ -282,9 +321,9 @@ def param_directed():
                    "  Use ::= SEQUENCE { s0 Q {BOOLEAN}, s1 Q {INTEGER (0..7)}, s2 Q {IA5String (SIZE(1..8))}, s3 Q {BOOLEAN} }\n", "param"))
     mods.append(mk("PaNestedActual", SUPPORT + "  P {T} ::= SEQUENCE { a T }\n  Q {T} ::= SEQUENCE { b T }\n"
                    "  Use ::= SEQUENCE { s0 P {Q {BOOLEAN}}, s1 P {Q {INTEGER}}, s2 P {Q {BOOLEAN}} }\n", "param",
-                   sites=[("Use", "s0", "P", alist_model([("i", "Q", [("t", "BOOLEAN", None, None)])])),
-                          ("Use", "s1", "P", alist_model([("i", "Q", [("t", "INTEGER", None, None)])])),
-                          ("Use", "s2", "P", alist_model([("i", "Q", [("t", "BOOLEAN", None, None)])]))]))
+                   sites=[site("Use", "s0", "P", [("i", "Q", [("t", "BOOLEAN", None, None)])]),
+                          site("Use", "s1", "P", [("i", "Q", [("t", "INTEGER", None, None)])]),
+                          site("Use", "s2", "P", [("i", "Q", [("t", "BOOLEAN", None, None)])])]))
     mods.append(mk("PaSelfNested", SUPPORT + "  P {T} ::= SEQUENCE { a T }\n  Use ::= SEQUENCE { s0 P {P {INTEGER (0..7)}} }\n", "param"))
     mods.append(mk("PaThroughValue", SUPPORT + "  P {INTEGER:n} ::= SEQUENCE (SIZE(1..n)) OF BOOLEAN\n  Q {INTEGER:m} ::= SEQUENCE { a P {m}, b INTEGER (0..m) }\n"
                    "  Use ::= SEQUENCE { s0 Q {4}, s1 Q {five} }\n", "param"))
@@ -299,12 +338,18 @@ def param_directed():
     mods.append(mk("PaImplicitTags", SUPPORT + "  P {T} ::= SEQUENCE { a [0] T, b [1] T OPTIONAL }\n  Use ::= SEQUENCE { s0 [0] P {Small}, s1 [1] P {IA5String (SIZE(1..8))} }\n",
                    "param", tagging="IMPLICIT"))
     # 9. across modules: imported template instantiated in two modules with equal and with different actuals
-    a = ("PaModT DEFINITIONS AUTOMATIC TAGS ::= BEGIN\n  EXPORTS P, Small;\n  P {T} ::= SEQUENCE { a T, b T OPTIONAL }\n  Small ::= INTEGER (0..7)\n"
-         "  Here ::= SEQUENCE { s0 P {Small}, s1 P {IA5String (SIZE(1..8))} }\nEND\n")
-    b = ("PaModU DEFINITIONS AUTOMATIC TAGS ::= BEGIN\n  IMPORTS P, Small FROM PaModT;\n"
-         "  There ::= SEQUENCE { s0 P {Small}, s1 P {IA5String (SIZE(1..8))}, s2 P {INTEGER (1 | 3 | 5)}, s3 P {BOOLEAN} }\nEND\n")
-    for k, files in enumerate(([("PaModT.asn1", a), ("PaModU.asn1", b)], [("PaModU.asn1", b), ("PaModT.asn1", a)], [("PaModTU.asn1", a + b)])):
-        mods.append({"name": "PaAcross%d" % k, "text": "".join(t for _, t in files), "files": files, "origin": "param", "expect": "valid"})
+    #    (a reference records the module it was written in: P {Small} here and P {Small} there are two specializations)
+    here = [[("r", "Small", None)], [("t", "IA5String", None, "(SIZE(1..8))")]]
+    there = [[("r", "Small", None)], [("t", "IA5String", None, "(SIZE(1..8))")], [("t", "INTEGER", None, "(1 | 3 | 5)")], [("t", "BOOLEAN", None, None)]]
+    for k in range(3):
+        order = [0, 1] if k != 1 else [1, 0]                     # k = 1: the importing module is named first
+        bh, sh_ = carrier("P", here, "Here", order.index(0))
+        bt, st = carrier("P", there, "There", order.index(1))
+        a = "PaModT DEFINITIONS AUTOMATIC TAGS ::= BEGIN\n  EXPORTS P, Small;\n  P {T} ::= SEQUENCE { a T, b T OPTIONAL }\n  Small ::= INTEGER (0..7)\n" + bh + "END\n"
+        b = "PaModU DEFINITIONS AUTOMATIC TAGS ::= BEGIN\n  IMPORTS P, Small FROM PaModT;\n" + bt + "END\n"
+        files = {0: [("PaModT.asn1", a), ("PaModU.asn1", b)], 1: [("PaModU.asn1", b), ("PaModT.asn1", a)], 2: [("PaModTU.asn1", a + b)]}[k]
+        mods.append({"name": "PaAcross%d" % k, "text": "".join(t for _, t in files), "files": files, "origin": "param", "expect": "valid",
+                     "sites": (sh_ + st) if k != 1 else (st + sh_)})
     return mods
 
 
@@ -399,8 +444,8 @@ def multi_directed():
     b = MT("Local-B", "  Item ::= OCTET STRING (SIZE(4))\n  UseB ::= SEQUENCE { x Item OPTIONAL, y BOOLEAN }")
     mods += multi("MmLocal", [a, b])
     # 4. same-named VALUES in two modules (referenced from constraints and DEFAULTs), same-named value and type stems
-    a = MT("Val-A", "  max INTEGER ::= 7\n  flag BOOLEAN ::= TRUE\n  Ta ::= SEQUENCE { a INTEGER (0..max) DEFAULT max, b BOOLEAN DEFAULT flag }")
-    b = MT("Val-B", "  max INTEGER ::= 255\n  flag BOOLEAN ::= FALSE\n  Tb ::= SEQUENCE { a INTEGER (0..max), b BOOLEAN DEFAULT flag, c SEQUENCE (SIZE(1..max)) OF NULL }")
+    a = MT("Val-A", "  max INTEGER ::= 7\n  dflt INTEGER ::= 1\n  Ta ::= SEQUENCE { a INTEGER (0..max) DEFAULT max, b INTEGER DEFAULT dflt }")
+    b = MT("Val-B", "  max INTEGER ::= 255\n  dflt INTEGER ::= 2\n  Tb ::= SEQUENCE { a INTEGER (0..max), b INTEGER DEFAULT dflt, c SEQUENCE (SIZE(1..max)) OF NULL }")
     mods += multi("MmValues", [a, b])
     a = MT("Vi-A", "  EXPORTS max, Ta;\n  max INTEGER ::= 7\n  Ta ::= INTEGER (0..max)")
     b = MT("Vi-B", "  IMPORTS max, Ta FROM Vi-A;\n  Tb ::= SEQUENCE { a INTEGER (0..max), t Ta, d Ta DEFAULT max }")
@@ -487,7 +532,9 @@ def multi_random(rng, n):
 
 
 # ------------------------------------------------------------------------------------------------ grammar families
-# One directed module per construct family of libasn1parser/asn1p_y.y (the left column is the rule or rule group).
+# One directed module per construct family of libasn1parser/asn1p_y.y (the first argument names the rule or rule group).
+# A family module holds only the forms asn1c accepts (so that their output is BUILT); the forms it refuses with a
+# diagnostic are single-construct modules of grammar_refused() (asn1c only; the refusal is counted, a death is a violation).
 
 def grammar_directed():
     G = []
@@ -495,63 +542,65 @@ def grammar_directed():
     def g(family, name, body, tagging="", **kw):
         G.append(mk(name, body, "grammar", tagging=tagging, family=family, **kw))
 
+    def raw(family, name, text):
+        G.append({"name": name, "family": family, "origin": "grammar", "expect": "valid", "text": text})
+
     def gm(family, name, texts, **kw):
         for m in multi(name, texts, origin="grammar", **kw):
             m["family"] = family
             G.append(m)
 
-    # ModuleDefinition / optObjectIdentifier / ModuleDefinitionFlags
-    G.append({"name": "GrHeaderOid", "family": "ModuleDefinition:oid-forms", "origin": "grammar", "expect": "valid",
-              "text": "GrHeaderOid { iso(1) org(3) dod(6) 99 name-only sub(5) } DEFINITIONS ::= BEGIN\n  T ::= INTEGER\nEND\n"})
-    G.append({"name": "GrHeaderFlags", "family": "ModuleDefinitionFlags", "origin": "grammar", "expect": "valid",
-              "text": "GrHeaderFlags DEFINITIONS IMPLICIT TAGS EXTENSIBILITY IMPLIED ::= BEGIN\n  T ::= SEQUENCE { a INTEGER, b CHOICE { x [0] NULL, y [1] BOOLEAN } }\n  E ::= ENUMERATED { a, b }\nEND\n"})
-    G.append({"name": "GrHeaderInstr", "family": "ModuleDefinitionFlags:INSTRUCTIONS", "origin": "grammar", "expect": "valid",
-              "text": "GrHeaderInstr DEFINITIONS XER INSTRUCTIONS AUTOMATIC TAGS ::= BEGIN\n  T ::= SEQUENCE { a INTEGER }\nEND\n"})
-    G.append({"name": "GrEmptyBody", "family": "optModuleBody:empty", "origin": "grammar", "expect": "valid",
-              "text": "GrEmptyBody DEFINITIONS ::= BEGIN END\nGrEmptyBody2 DEFINITIONS ::= BEGIN\n  T ::= NULL\nEND\n"})
+    # ModuleDefinition / optObjectIdentifier / ModuleDefinitionFlags / optModuleBody
+    raw("ModuleDefinition:oid-forms", "GrHeaderOid", "GrHeaderOid { iso(1) org(3) dod(6) 99 name-only sub(5) } DEFINITIONS ::= BEGIN\n  T ::= INTEGER\nEND\n")
+    raw("ModuleDefinitionFlags", "GrHeaderFlags", "GrHeaderFlags DEFINITIONS IMPLICIT TAGS EXTENSIBILITY IMPLIED ::= BEGIN\n"
+        "  T ::= SEQUENCE { a INTEGER, b CHOICE { x [0] NULL, y [1] BOOLEAN } }\n  E ::= ENUMERATED { a, b }\nEND\n")
+    raw("ModuleDefinitionFlags:INSTRUCTIONS", "GrHeaderInstr", "GrHeaderInstr DEFINITIONS XER INSTRUCTIONS AUTOMATIC TAGS ::= BEGIN\n  T ::= SEQUENCE { a INTEGER }\nEND\n")
+    raw("optModuleBody:empty", "GrEmptyBody", "GrEmptyBody DEFINITIONS ::= BEGIN END\nGrEmptyBody2 DEFINITIONS ::= BEGIN\n  T ::= NULL\nEND\n")
     # Exports
     g("ExportsDefinition", "GrExports", "  EXPORTS T, v, U;\n  T ::= INTEGER\n  U ::= BOOLEAN\n  v INTEGER ::= 1")
     g("ExportsDefinition:ALL", "GrExportsAll", "  EXPORTS ALL;\n  T ::= INTEGER")
     g("ExportsDefinition:empty", "GrExportsNone", "  EXPORTS ;\n  T ::= INTEGER")
-    # ValueSetTypeAssignment
-    g("ValueSetTypeAssignment", "GrValueSetType", "  Vs INTEGER ::= { 1 | 2 | 5..9 }\n  Ws IA5String ::= { \"a\" | \"b\" }\n  T ::= SEQUENCE { a Vs, b INTEGER (Vs) }")
+    # ValueSetTypeAssignment (used as a constraint; as a TYPE it is refused: grammar_refused)
+    g("ValueSetTypeAssignment", "GrValueSetType", "  Vs INTEGER ::= { 1 | 2 | 5..9 }\n  T ::= SEQUENCE { b INTEGER (Vs), c INTEGER (Vs | 20) }")
     # Types: every ConcreteTypeDeclaration / BasicTypeId / BasicString
-    g("BasicTypeId:all", "GrBasicTypes", "  T ::= SEQUENCE { b BOOLEAN, n NULL, r REAL, o OBJECT IDENTIFIER, ro RELATIVE-OID, e EXTERNAL OPTIONAL, p EMBEDDED PDV OPTIONAL, "
-      "c CHARACTER STRING OPTIONAL, u UTCTime, g GeneralizedTime, os OCTET STRING, bs BIT STRING, i INTEGER, en ENUMERATED { a } }")
-    g("BasicString:all", "GrStringTypes", "  T ::= SEQUENCE { a BMPString, b GeneralString, c GraphicString, d IA5String, e ISO646String, f NumericString, g PrintableString, "
+    g("BasicTypeId", "GrBasicTypes", "  T ::= SEQUENCE { b BOOLEAN, n NULL, r REAL, o OBJECT IDENTIFIER, ro RELATIVE-OID, u UTCTime, g GeneralizedTime, os OCTET STRING, "
+      "bs BIT STRING, i INTEGER, en ENUMERATED { a } }")
+    g("BasicTypeId:EXTERNAL/EMBEDDED PDV/CHARACTER STRING", "GrUnsupportedTypes", "  T ::= SEQUENCE { e EXTERNAL OPTIONAL, p EMBEDDED PDV OPTIONAL, c CHARACTER STRING OPTIONAL, z INTEGER }")
+    g("BasicString", "GrStringTypes", "  T ::= SEQUENCE { a BMPString, b GeneralString, c GraphicString, d IA5String, f NumericString, g PrintableString, "
       "h T61String, i TeletexString, j UniversalString, k UTF8String, l VideotexString, m VisibleString, n ObjectDescriptor }")
+    g("BasicString:ISO646String", "GrIso646", "  T ::= SEQUENCE { e ISO646String, z INTEGER }")
     g("TaggedType:classes", "GrTags", "  A ::= [UNIVERSAL 29] IMPLICIT INTEGER\n  B ::= [APPLICATION 1] EXPLICIT BOOLEAN\n  C ::= [PRIVATE 2] NULL\n  D ::= [3] INTEGER\n"
       "  E ::= [4] IMPLICIT SEQUENCE { a [0] IMPLICIT INTEGER, b [1] EXPLICIT CHOICE { c NULL } }\n  F ::= [5] E\n  G ::= [APPLICATION 31] INTEGER\n  H ::= [APPLICATION 128] INTEGER")
-    g("NamedNumberList/NamedBitList", "GrNamed", "  v0 INTEGER ::= 0\n  A ::= INTEGER { zero(0), neg(-1), ref(v0) }\n  B ::= BIT STRING { first(0), ref(v0) }\n  C ::= A (zero | neg)\n  D ::= SEQUENCE { a A DEFAULT neg, b B DEFAULT { first } }")
+    g("NamedNumberList/NamedBitList", "GrNamed", "  v3 INTEGER ::= 3\n  A ::= INTEGER { zero(0), neg(-1), ref(v3) }\n  B ::= BIT STRING { first(0), ref(v3) }\n  C ::= A (zero | neg)\n"
+      "  D ::= SEQUENCE { a A DEFAULT neg, b B DEFAULT { first } }")
     g("Enumerations", "GrEnums", "  A ::= ENUMERATED { a, b(5), c, ..., d, e(9) }\n  B ::= ENUMERATED { x(1), ... }\n  C ::= ENUMERATED { only }\n  D ::= ENUMERATED { p(-1), q(0), ..., r(100) }\n"
-      "  v0 INTEGER ::= 3\n  E ::= ENUMERATED { k(v0), l }\n  S ::= SEQUENCE { a A DEFAULT c, b B, c C, d D, e E }")
+      "  S ::= SEQUENCE { a A DEFAULT c, b B, c C, d D }", tagging="AUTOMATIC")
+    g("Enumerations:value reference", "GrEnumValueRef", "  v3 INTEGER ::= 3\n  E ::= ENUMERATED { k(v3), l }")
     g("ComponentTypeLists:extensions", "GrExtMarkers", "  A ::= SEQUENCE { a INTEGER, ... }\n  B ::= SEQUENCE { ..., b INTEGER }\n  C ::= SEQUENCE { a INTEGER, ..., ..., c BOOLEAN }\n"
-      "  D ::= SEQUENCE { a INTEGER, ..., [[ b BOOLEAN ]], [[ 3: c NULL OPTIONAL, d INTEGER ]], ..., e BOOLEAN }\n  E ::= SET { a [0] INTEGER, ..., b [1] BOOLEAN OPTIONAL }\n"
-      "  F ::= CHOICE { a [0] INTEGER, ..., b [1] BOOLEAN, [[ c [2] NULL ]] }", tagging="AUTOMATIC")
-    g("ExtensionAndException", "GrException", "  A ::= SEQUENCE { a INTEGER, ...!1 }\n  B ::= CHOICE { a INTEGER, ... ! INTEGER : 5 }\n  C ::= ENUMERATED { a, ... ! 3 }\n  D ::= INTEGER (0..7, ... ! 9)")
+      "  D ::= SEQUENCE { a INTEGER, ..., [[ b BOOLEAN ]], [[ c NULL OPTIONAL, d INTEGER ]], ..., e BOOLEAN }\n  E ::= SET { a [0] INTEGER, ..., b [1] BOOLEAN OPTIONAL }\n"
+      "  F ::= CHOICE { a [0] INTEGER, ..., b [1] BOOLEAN }", tagging="AUTOMATIC")
+    g("ExtensionAndException", "GrException", "  A ::= SEQUENCE { a INTEGER, ...!1 }\n  B ::= CHOICE { a INTEGER, ... ! 5 }")
     g("ComponentType:COMPONENTS OF", "GrComponentsOf", "  A ::= SEQUENCE { a INTEGER, b BOOLEAN OPTIONAL, ..., x NULL }\n  B ::= SEQUENCE { COMPONENTS OF A, c REAL }\n  C ::= SET { a [0] INTEGER }\n  D ::= SET { COMPONENTS OF C, d [1] NULL }",
       tagging="AUTOMATIC")
     g("Marker", "GrMarkers", "  A ::= SEQUENCE { a INTEGER OPTIONAL, b BOOLEAN DEFAULT TRUE, c INTEGER DEFAULT 0, d NULL OPTIONAL, e SEQUENCE OF INTEGER OPTIONAL, f IA5String DEFAULT \"x\", "
-      "g BIT STRING DEFAULT '101'B, h OCTET STRING DEFAULT 'AB'H, i ENUMERATED { p, q } DEFAULT q, j REAL DEFAULT 0, k CHOICE { x INTEGER } DEFAULT x : 5, l SEQUENCE { m INTEGER } DEFAULT { m 1 } }",
-      tagging="AUTOMATIC")
+      "g BIT STRING DEFAULT '101'B, h OCTET STRING DEFAULT 'AB'H, i ENUMERATED { p, q } DEFAULT q, j REAL DEFAULT 0, l SEQUENCE { m INTEGER } DEFAULT { m 1 } }", tagging="AUTOMATIC")
     g("ANY / ANY DEFINED BY", "GrAny", "  A ::= SEQUENCE { t OBJECT IDENTIFIER, v ANY DEFINED BY t }\n  B ::= SEQUENCE { a INTEGER, b ANY OPTIONAL }\n  C ::= ANY\n  D ::= SEQUENCE OF ANY")
-    g("selection type", "GrSelection", "  C ::= CHOICE { a INTEGER, b BOOLEAN }\n  S ::= a < C\n  T ::= SEQUENCE { x b < C }")
     g("SEQUENCE OF / SET OF forms", "GrOfForms", "  A ::= SEQUENCE OF INTEGER\n  B ::= SEQUENCE SIZE(1..4) OF INTEGER\n  C ::= SEQUENCE (SIZE(1..4)) OF elem INTEGER\n  D ::= SET SIZE(2) OF BOOLEAN\n"
       "  E ::= SET (SIZE(0..MAX)) OF x NULL\n  F ::= SEQUENCE (SIZE(1..4, ...)) OF INTEGER (0..7)\n  G ::= SEQUENCE OF [5] INTEGER\n  H ::= SEQUENCE OF CHOICE { a INTEGER, b NULL }")
     g("DefinedType:Module.Type", "GrQualifiedRef", "  A ::= INTEGER\n  B ::= GrQualifiedRef.A\n  C ::= SEQUENCE { a GrQualifiedRef.A, b GrQualifiedRef.B (0..5) }")
-    g("INSTANCE OF / TYPE-IDENTIFIER", "GrInstanceOf", "  T ::= INSTANCE OF TYPE-IDENTIFIER\n  U ::= SEQUENCE { a INSTANCE OF TYPE-IDENTIFIER }")
+    g("INSTANCE OF as a component", "GrInstanceOfMember", "  U ::= SEQUENCE { a INSTANCE OF TYPE-IDENTIFIER, z INTEGER }", tagging="AUTOMATIC")
+    g("ValueSetTypeAssignment used as a type", "GrValueSetAsType", "  Vs INTEGER ::= { 1 | 2 }\n  T ::= SEQUENCE { a Vs, z INTEGER }", tagging="AUTOMATIC")
     g("TYPE-IDENTIFIER.&Type", "GrTypeIdentifier", "  T ::= SEQUENCE { id TYPE-IDENTIFIER.&id, v TYPE-IDENTIFIER.&Type }")
     # Values
     g("ValueAssignment:SimpleValue", "GrValues", "  i0 INTEGER ::= 0\n  i1 INTEGER ::= -5\n  i2 INTEGER ::= 2147483648\n  b0 BOOLEAN ::= TRUE\n  b1 BOOLEAN ::= FALSE\n  n0 NULL ::= NULL\n  r0 REAL ::= 0\n  r1 REAL ::= 3.14\n"
-      "  r2 REAL ::= { mantissa 1, base 2, exponent 3 }\n  r3 REAL ::= PLUS-INFINITY\n  r4 REAL ::= MINUS-INFINITY\n  s0 IA5String ::= \"abc\"\n  s1 IA5String ::= \"with \"\"quote\"\"\"\n  h0 OCTET STRING ::= '0123ABCD'H\n"
+      "  r2 REAL ::= { mantissa 1, base 2, exponent 3 }\n  s0 IA5String ::= \"abc\"\n  s1 IA5String ::= \"with \"\"quote\"\"\"\n  h0 OCTET STRING ::= '0123ABCD'H\n"
       "  h1 OCTET STRING ::= '0101'B\n  bs BIT STRING ::= '1010'B\n  bh BIT STRING ::= 'F0'H\n  T ::= INTEGER (i1..i2)")
     g("ValueAssignment:OID/defined values", "GrValuesOid", "  o0 OBJECT IDENTIFIER ::= { iso(1) 2 3 }\n  o1 OBJECT IDENTIFIER ::= { o0 4 five(5) }\n  ro RELATIVE-OID ::= { 1 2 }\n  i0 INTEGER ::= 7\n  i1 INTEGER ::= i0\n"
       "  i2 INTEGER ::= GrValuesOid.i0\n  T ::= INTEGER (0..i2)")
-    g("ValueAssignment:structured/choice values", "GrValuesStruct", "  S ::= SEQUENCE { a INTEGER, b BOOLEAN }\n  C ::= CHOICE { x INTEGER, y NULL }\n  L ::= SEQUENCE OF INTEGER\n  s0 S ::= { a 1, b TRUE }\n  c0 C ::= x : 5\n  l0 L ::= { 1, 2, 3 }\n"
-      "  l1 L ::= { }\n  E ::= ENUMERATED { p, q }\n  e0 E ::= q\n  T ::= SEQUENCE { s S DEFAULT s0, c C DEFAULT c0, e E DEFAULT e0 }")
-    g("RestrictedCharacterStringValue:tuple/quadruple", "GrCharValues", "  a IA5String ::= { 0, 65 }\n  b UniversalString ::= { 0, 0, 1, 0 }\n  T ::= IA5String (FROM({0, 32}..{7, 14}))\n  U ::= BMPString (FROM({0,0,0,65}..{0,0,0,90}))")
+    g("ValueAssignment:structured values", "GrValuesStruct", "  S ::= SEQUENCE { a INTEGER, b BOOLEAN }\n  L ::= SEQUENCE OF INTEGER\n  s0 S ::= { a 1, b TRUE }\n  l0 L ::= { 1, 2, 3 }\n"
+      "  l1 L ::= { }\n  E ::= ENUMERATED { p, q }\n  e0 E ::= q\n  T ::= SEQUENCE { s S DEFAULT s0, e E DEFAULT e0 }")
+    g("RestrictedCharacterStringValue:tuple/quadruple", "GrCharValues", "  a IA5String ::= {0,10}\n  b UniversalString ::= {0,0,1,0}\n  T ::= IA5String (FROM({0,2}..{7,14}))\n  U ::= BMPString (FROM({0,0,0,65}..{0,0,0,90}))")
     # Constraints
-    g("ValueRange:open ends", "GrOpenRanges", "  A ::= INTEGER (0<..8)\n  B ::= INTEGER (0..<8)\n  C ::= INTEGER (0<..<8)\n  D ::= INTEGER (MIN<..0)\n  E ::= REAL (0<..<1)\n  S ::= SEQUENCE { a A, b B, c C, d D, e E }")
     g("Unions/Intersections/EXCEPT spelled out", "GrSetOps", "  A ::= INTEGER (1 UNION 3 UNION 5..7)\n  B ::= INTEGER (0..9 INTERSECTION 5..20)\n  C ::= INTEGER (0..9 EXCEPT 3 | 20..29 ^ 25..40)\n  D ::= INTEGER (ALL EXCEPT (1..3))\n  E ::= INTEGER ((1..5) | (7..9))\n"
       "  S ::= SEQUENCE { a A, b B, c C, d D, e E }")
     g("ContainedSubtype", "GrIncludes", "  A ::= INTEGER (0..7)\n  B ::= INTEGER (INCLUDES A | 10..12)\n  C ::= INTEGER (A)\n  D ::= INTEGER (A | B)\n  S ::= SEQUENCE { b B, c C, d D }")
@@ -559,26 +608,22 @@ def grammar_directed():
     g("InnerTypeConstraints", "GrInnerType", "  R ::= SEQUENCE { a INTEGER OPTIONAL, b BOOLEAN OPTIONAL, c IA5String OPTIONAL }\n  A ::= R (WITH COMPONENTS { a PRESENT, b ABSENT })\n  B ::= R (WITH COMPONENTS { ..., a (0..5), c (SIZE(1..2)) OPTIONAL })\n"
       "  L ::= SEQUENCE OF INTEGER\n  C ::= L (WITH COMPONENT (0..7))\n  K ::= CHOICE { x INTEGER, y BOOLEAN }\n  D ::= K (WITH COMPONENTS { x PRESENT })\n  E ::= SET OF R (WITH COMPONENT (WITH COMPONENTS { a PRESENT }))\n  S ::= SEQUENCE { a A, b B, c C, d D, e E }")
     g("UserDefinedConstraint", "GrConstrainedBy", "  A ::= OCTET STRING (CONSTRAINED BY { -- anything -- })\n  B ::= INTEGER (CONSTRAINED BY { INTEGER : 5 })\n  S ::= SEQUENCE { a A, b B }")
-    g("ContentsConstraint", "GrContents", "  I ::= INTEGER (0..7)\n  A ::= OCTET STRING (CONTAINING I)\n  B ::= BIT STRING (CONTAINING I ENCODED BY { joint-iso-itu-t asn1(1) packed-encoding(3) basic(0) unaligned(1) })\n"
-      "  C ::= OCTET STRING (ENCODED BY { 2 1 1 })\n  S ::= SEQUENCE { a A, b B, c C }")
-    g("SizeConstraint / PermittedAlphabet on every string type", "GrSizeFrom", "\n".join("  A%d ::= %s (SIZE(1..%d)) (FROM(%s))" % (i, s, i + 2, '"0".."9"' if s == "NumericString" else '"A".."Z"')
-                                                                                    for i, s in enumerate(["IA5String", "PrintableString", "VisibleString", "NumericString", "BMPString", "UniversalString", "UTF8String"])) +
+    g("ContentsConstraint:CONTAINING", "GrContents", "  I ::= INTEGER (0..7)\n  A ::= OCTET STRING (CONTAINING I)\n  B ::= BIT STRING (CONTAINING I)\n  S ::= SEQUENCE { a A, b B }")
+    g("SizeConstraint / PermittedAlphabet on every string type", "GrSizeFrom", "\n".join("  A%d ::= %s (SIZE(1..%d)) (FROM(%s))" % (i, st, i + 2, '"0".."9"' if st == "NumericString" else '"A".."Z"')
+                                                                                    for i, st in enumerate(["IA5String", "PrintableString", "VisibleString", "NumericString", "BMPString", "UniversalString", "UTF8String"])) +
       "\n  B ::= BIT STRING (SIZE(3))\n  C ::= OCTET STRING (SIZE(1..MAX))\n  S ::= SEQUENCE { a0 A0, a3 A3, a4 A4, a5 A5, a6 A6, b B, c C }")
     g("SingleValue / BitStringValue constraints", "GrValueConstraints", "  A ::= INTEGER (5)\n  B ::= BOOLEAN (TRUE)\n  C ::= IA5String (\"abc\")\n  D ::= BIT STRING ('101'B)\n  E ::= OCTET STRING ('AB'H)\n  F ::= ENUMERATED { p, q, r } (p | r)\n"
       "  G ::= NULL (NULL)\n  H ::= REAL (0 | 1.5)\n  S ::= SEQUENCE { a A, b B, c C, d D, e E, f F, h H }")
-    # Classes, objects, object sets, table constraints
-    g("ObjectClass/FieldSpec/WithSyntax", "GrClass", "  OPS ::= CLASS { &id INTEGER UNIQUE, &Type, &opt BOOLEAN OPTIONAL, &def INTEGER DEFAULT 5, &Set INTEGER OPTIONAL, &name IA5String OPTIONAL }\n"
-      "    WITH SYNTAX { ID &id TYPE &Type [OPT &opt] [DEF &def] [VALUES &Set] [NAMED &name] }\n  op1 OPS ::= { ID 1 TYPE INTEGER }\n  op2 OPS ::= { ID 2 TYPE BOOLEAN OPT TRUE DEF 7 }\n  Ops OPS ::= { op1 | op2, ... }\n"
-      "  Msg ::= SEQUENCE { id OPS.&id ({Ops}), val OPS.&Type ({Ops}{@id}) }")
-    g("TableConstraint:ComponentRelation forms", "GrTableConstraint", "  K ::= CLASS { &id INTEGER UNIQUE, &Type } WITH SYNTAX { &id &Type }\n  k1 K ::= { 1 INTEGER }\n  k2 K ::= { 2 IA5String }\n  Ks K ::= { k1 | k2 }\n"
-      "  Outer ::= SEQUENCE { id K.&id ({Ks}), inner SEQUENCE { v K.&Type ({Ks}{@id}) }, same K.&Type ({Ks}{@.id}) OPTIONAL }")
-    g("ClassField:no WITH SYNTAX", "GrClassDefaultSyntax", "  K ::= CLASS { &id INTEGER UNIQUE, &Type OPTIONAL }\n  k1 K ::= { &id 1, &Type BOOLEAN }\n  Ks K ::= { k1 }\n  M ::= SEQUENCE { id K.&id ({Ks}), v K.&Type ({Ks}{@id}) OPTIONAL }")
-    g("ParameterArgumentList:class parameter", "GrParamClass", "  K ::= CLASS { &id INTEGER UNIQUE, &Type } WITH SYNTAX { &id &Type }\n  k1 K ::= { 1 INTEGER }\n  Ks K ::= { k1 }\n"
-      "  Msg {K:Set} ::= SEQUENCE { id K.&id ({Set}), v K.&Type ({Set}{@id}) }\n  Use ::= Msg {{Ks}}")
+    # Classes, objects, object sets, table constraints (the shapes property C18 found supported: WITH SYNTAX, named row types, "|")
+    cls = ("  OPS ::= CLASS { &id INTEGER UNIQUE, &Type } WITH SYNTAX { ID &id TYPE &Type }\n  TA ::= INTEGER\n  TB ::= BOOLEAN\n"
+           "  op1 OPS ::= { ID 1 TYPE TA }\n  op2 OPS ::= { ID 2 TYPE TB }\n  Ops OPS ::= { op1 | op2 }\n")
+    g("ObjectClass/FieldSpec/WithSyntax/TableConstraint", "GrClass", cls + "  Msg ::= SEQUENCE { id OPS.&id ({Ops}), val OPS.&Type ({Ops}{@id}) }", tagging="AUTOMATIC")
+    g("ComponentRelationConstraint:@.", "GrClassDot", cls + "  Msg ::= SEQUENCE { id OPS.&id ({Ops}), val OPS.&Type ({Ops}{@.id}) }", tagging="AUTOMATIC")
+    g("ParameterArgumentList:class parameter", "GrParamClass", cls + "  Msg {OPS:Set} ::= SEQUENCE { id OPS.&id ({Set}), val OPS.&Type ({Set}{@id}) }\n  Use ::= Msg {{Ops}}", tagging="AUTOMATIC")
     # Lexer
-    G.append({"name": "GrLexer", "family": "lexer: comments, whitespace, number and string forms", "origin": "grammar", "expect": "valid",
-              "text": "GrLexer -- comment -- DEFINITIONS /* block\n comment */ ::= BEGIN\n\tT\t::=\tSEQUENCE {\r\n  a-b-c INTEGER(0..7),--x--b BOOLEAN, -- to end of line\n  c /* nested /* block */ */ NULL,\n"
-                      "  d IA5String DEFAULT \"multi\n   line\", e BIT STRING DEFAULT ''B, f OCTET STRING DEFAULT ''H, g OCTET STRING DEFAULT 'AB CD'H, h INTEGER DEFAULT 007 }\n  T1a2-b3 ::= INTEGER\nEND\n"})
+    raw("lexer: comments, whitespace, number and string forms", "GrLexer",
+        "GrLexer -- comment -- DEFINITIONS /* block\n comment */ AUTOMATIC TAGS ::= BEGIN\n\tT\t::=\tSEQUENCE {\r\n  a-b-c INTEGER(0..7),--x--b BOOLEAN, -- to end of line\n  c /* nested /* block */ */ NULL,\n"
+        "  d IA5String DEFAULT \"multi\n   line\", g OCTET STRING DEFAULT 'AB CD'H, h INTEGER DEFAULT 007 }\n  T1a2-b3 ::= INTEGER\nEND\n")
     # Imports family: see multi_directed (chain, cycle, OIDs); here the syntax forms only
     gm("ImportsDefinition forms", "GrImports", [MT("Gi-A", "  IMPORTS B1, b1 FROM Gi-B C1 FROM Gi-C { 1 2 3 };\n  A ::= SEQUENCE { b B1 (0..b1), c C1 }", tagging=""),
                                                  MT("Gi-B", "  B1 ::= INTEGER\n  b1 INTEGER ::= 5", tagging=""), MT("Gi-C", "  C1 ::= BOOLEAN", tagging="", oid="{ 1 2 3 }")], layouts=("sep",))
@@ -586,15 +631,54 @@ def grammar_directed():
     return G
 
 
+def grammar_refused():
+    """single-construct modules asn1c is expected to refuse with a diagnostic (valid ASN.1 outside the supported constructs);
+    they run through asn1c only: exit by signal = violation, refusal = counted, acceptance = built like any other module"""
+    R = [
+        ("ValueRange:open ends", "  A ::= INTEGER (0<..8)"), ("ValueRange:open ends", "  A ::= REAL (0<..<1)"),
+        ("ActualParameter:open range", "  P {T} ::= SEQUENCE { a T }\n  U ::= P {INTEGER (0<..<8)}"),
+        ("ActualParameter:two numbers lexed as a tuple", "  Q {INTEGER:lo, INTEGER:hi} ::= INTEGER (lo..hi)\n  U ::= Q {1, 10}"),
+        ("ActualParameter:ValueSet", "  P {INTEGER:Allowed} ::= SEQUENCE { a INTEGER (Allowed) }\n  U ::= SEQUENCE { s0 P {{1 | 2 | 3}}, s1 P {{1..10}} }"),
+        ("version brackets with a number", "  D ::= SEQUENCE { a INTEGER, ..., [[ 3: c NULL OPTIONAL ]] }"),
+        ("version brackets in CHOICE", "  F ::= CHOICE { a [0] INTEGER, ..., [[ c [2] NULL ]] }"),
+        ("ExceptionSpec:typed", "  B ::= CHOICE { a INTEGER, ... ! INTEGER : 5 }"), ("ExceptionSpec:ENUMERATED", "  C ::= ENUMERATED { a, ... ! 3 }"),
+        ("ExceptionSpec:constraint", "  D ::= INTEGER (0..7, ... ! 9)"),
+        ("choice value", "  C ::= CHOICE { x INTEGER, y NULL }\n  c0 C ::= x : 5\n  T ::= INTEGER"), ("DEFAULT choice value", "  A ::= SEQUENCE { k CHOICE { x INTEGER } DEFAULT x : 5 }"),
+        ("selection type", "  C ::= CHOICE { a INTEGER, b BOOLEAN }\n  S ::= a < C"),
+        ("INSTANCE OF", "  T ::= INSTANCE OF TYPE-IDENTIFIER"),
+        ("EXTERNAL at top level", "  T ::= EXTERNAL"),
+        ("REAL special values", "  r REAL ::= PLUS-INFINITY\n  T ::= INTEGER"), ("REAL special values", "  r REAL ::= MINUS-INFINITY\n  T ::= INTEGER"),
+        ("tuple out of range", "  a IA5String ::= { 0, 65 }\n  T ::= INTEGER"),
+        ("ENCODED BY", "  C ::= OCTET STRING (ENCODED BY { 2 1 1 })"), ("CONTAINING ... ENCODED BY", "  I ::= INTEGER\n  B ::= BIT STRING (CONTAINING I ENCODED BY { 2 1 1 })"),
+        ("empty bstring / hstring", "  T ::= SEQUENCE { e BIT STRING DEFAULT ''B, z INTEGER }"), ("empty bstring / hstring", "  T ::= SEQUENCE { f OCTET STRING DEFAULT ''H, z INTEGER }"),
+        ("class without WITH SYNTAX", "  K ::= CLASS { &id INTEGER UNIQUE, &Type OPTIONAL }\n  k1 K ::= { &id 1, &Type BOOLEAN }\n  Ks K ::= { k1 }\n  M ::= SEQUENCE { id K.&id ({Ks}), v K.&Type ({Ks}{@id}) OPTIONAL }"),
+        ("WITH SYNTAX without literals", "  K ::= CLASS { &id INTEGER UNIQUE, &Type } WITH SYNTAX { &id &Type }\n  k1 K ::= { 1 INTEGER }\n  Ks K ::= { k1 }\n  M ::= SEQUENCE { id K.&id ({Ks}) }"),
+        ("class value field of a string type", "  OPS ::= CLASS { &id INTEGER UNIQUE, &Type, &name IA5String OPTIONAL } WITH SYNTAX { ID &id TYPE &Type [NAMED &name] }\n  TA ::= INTEGER\n  TB ::= BOOLEAN\n"
+         "  op1 OPS ::= { ID 1 TYPE TA NAMED \"a\" }\n  op2 OPS ::= { ID 2 TYPE TB }\n  Ops OPS ::= { op1 | op2 }\n  Msg ::= SEQUENCE { id OPS.&id ({Ops}), val OPS.&Type ({Ops}{@id}) }"),
+        ("both modules carry an OID and define the same name", None),
+        ("BOOLEAN DEFAULT through a value reference", "  flag BOOLEAN ::= TRUE\n  Ta ::= SEQUENCE { b BOOLEAN DEFAULT flag, c INTEGER }"),
+        ("OBJECT IDENTIFIER value as an actual parameter", "  P {OBJECT IDENTIFIER:d} ::= SEQUENCE { a INTEGER }\n  Use ::= SEQUENCE { s0 P {{1 2 3}} }"),
+    ]
+    out = []
+    for k, (family, body) in enumerate(R):
+        if body is None:
+            continue
+        m = mk("GrRefused%d" % k, body, "grammar-refused", tagging="AUTOMATIC", family=family)
+        m["expect"] = "refused-or-valid"
+        out.append(m)
+    return out
+
+
 GRAMMAR_FAMILIES_NOT_COVERED = [
-    "XMLValue notation / ENCODING-CONTROL sections (not in the grammar file: the lexer skips ENCODING-CONTROL)",
-    "macro notation (lexer recognises MACRO ... END only to skip it)",
-    "object class field types beyond fixed-type value / type / value-set fields: variable-type value fields, object fields, object-set fields",
-    "information from objects (obj.&field as a value), ObjectSetFromObjects",
-    "parameterized values, value sets, classes, objects and object sets (only parameterized TYPES are supported constructs)",
+    "XMLValue notation / ENCODING-CONTROL sections (the lexer skips ENCODING-CONTROL ... END; no grammar rule)",
+    "macro notation (the lexer recognises MACRO ... END only to skip it)",
+    "class fields beyond fixed-type value fields and type fields: variable-type value fields, value-set fields, object fields, object-set fields",
+    "information from objects (obj.&field as a value or type), ObjectSetFromObjects",
+    "parameterized values, value sets, classes, objects and object sets (only parameterized TYPES are generated)",
+    "NSTD_IndirectMarker (the non-standard '*' pointer marker of asn1c)",
 ]
 
 
 def regions(rng, tier):
     nrp, nrm = (6, 4) if tier == "quick" else (40, 24)
-    return param_directed() + param_random(rng, nrp) + multi_directed() + multi_random(rng, nrm) + grammar_directed()
+    return param_directed() + param_random(rng, nrp) + multi_directed() + multi_random(rng, nrm) + grammar_directed() + grammar_refused()
